@@ -9,7 +9,7 @@ by one iteration with the loop-carried state (cursor, extended_arg, extended_arg
 """
 from .fold import FuncRef, ModuleNS
 from .report import AnalysisError
-from .sve import (Cont, Fall, Guard, Lin, Op, Raise, Ret, Spec, Sym, Top, add, flatten_effects, leaves, show)
+from .sve import (Brk, Cont, Fall, Guard, Lin, Op, Raise, Ret, Spec, Sym, Top, add, flatten_effects, leaves, show)
 
 CODE = Sym("code", "bytes")
 
@@ -89,7 +89,8 @@ def instr_summary(T, opc, K, line_offset=None, linestarts=None, exception_entrie
     res["fields"] = dict(y.args[1])
     res["yield_guards"] = [g for g in ys[0].guards if not (isinstance(g, Op) and g.op == "in-loop")]
     lv = [(g, l) for g, l in leaves(ls.out)]
-    falls = [(g, l) for g, l in lv if isinstance(l, (Fall, Cont))]
+    # an iteration ends by falling through to the loop test, by `continue`, or -- once the logical instruction is complete -- by `break`
+    falls = [(g, l) for g, l in lv if isinstance(l, (Fall, Cont, Brk))]
     if len(falls) != 1 or len(lv) != 1:
         res["error"] = "iteration has %d outcomes (%s), expected one fall-through" % (len(lv), [type(l).__name__ for g, l in lv])
         return res
